@@ -77,12 +77,14 @@ type BaseStore struct {
 	muIndex   sync.RWMutex
 	muJoining sync.Mutex
 	muAppend  sync.Mutex
-	sortFn    ipfslog.SortFn
-	logger    *zap.Logger
-	tracer    trace.Tracer
-	ctx       context.Context
-	cancel    context.CancelFunc
-	closeFunc func()
+
+	muReplStatus sync.Mutex
+	sortFn       ipfslog.SortFn
+	logger       *zap.Logger
+	tracer       trace.Tracer
+	ctx          context.Context
+	cancel       context.CancelFunc
+	closeFunc    func()
 
 	// Deprecated: if possible don't use this, use EventBus() directly instead
 	events.EventEmitter
@@ -915,6 +917,7 @@ func (b *BaseStore) AddOperation(ctx context.Context, op operation.Operation, on
 	return e, nil
 }
 
+// recalculateReplicationProgress must be called with muReplStatus held
 func (b *BaseStore) recalculateReplicationProgress() {
 	max := b.ReplicationStatus().GetMax()
 	if progress := b.ReplicationStatus().GetProgress() + 1; progress < max {
@@ -928,19 +931,35 @@ func (b *BaseStore) recalculateReplicationProgress() {
 	b.ReplicationStatus().SetProgress(max)
 }
 
-func (b *BaseStore) recalculateReplicationMax(max int) {
+// recalculateReplicationMaxLocked must be called with muReplStatus held
+func (b *BaseStore) recalculateReplicationMaxLocked(max int) {
+	// the maximum is the largest of the log length, the announced clock and
+	// the previous maximum: it never goes down while the store is open
 	if opLogLen := b.OpLog().Len(); opLogLen > max {
 		max = opLogLen
-
-	} else if replMax := b.ReplicationStatus().GetMax(); replMax > max {
+	}
+	if replMax := b.ReplicationStatus().GetMax(); replMax > max {
 		max = replMax
 	}
 
 	b.ReplicationStatus().SetMax(max)
 }
 
+func (b *BaseStore) recalculateReplicationMax(max int) {
+	b.muReplStatus.Lock()
+	defer b.muReplStatus.Unlock()
+
+	b.recalculateReplicationMaxLocked(max)
+}
+
 func (b *BaseStore) recalculateReplicationStatus(maxTotal int) {
-	b.recalculateReplicationMax(maxTotal)
+	// read-modify-write of progress and max from several goroutines (writes,
+	// load progress, the main loop): serialise them so a stale value is
+	// never written back
+	b.muReplStatus.Lock()
+	defer b.muReplStatus.Unlock()
+
+	b.recalculateReplicationMaxLocked(maxTotal)
 	b.recalculateReplicationProgress()
 }
 
